@@ -1,4 +1,4 @@
-"""C15 -- scopes and name tables agree with Python's symbol table (VGC rules R15.1-R15.12)."""
+"""C15 -- scopes and name tables agree with Python's symbol table (VGC rules R15.1-R15.14)."""
 from __future__ import annotations
 
 import ast
@@ -19,6 +19,7 @@ EXPLANATION = (
     "new scope's visitor; walrus targets in comprehensions bind outside.  R15.7: visitors that bind every Name they meet "
     "without checking ctx never descend into Attribute.value / Subscript.value / Subscript.slice.  R15.6 (=R01.1): class scopes are skipped "
     "by enclosing lookup.  Scope extents and inferred objects are not decided."
+    ' R15.13: every pattern-typed field is passed on to a visitor that records capture names.  R15.14: a child x.F is traversed whenever present -- the visit may be conditional on x.F only, never on a sibling field.'
 )
 ASSUMPTIONS = [
     "handler summaries are flow-insensitive; an unknown idiom makes a field count as reached (under-approximation of gaps)",
@@ -203,6 +204,9 @@ def _check_main(ctx, res) -> None:
     res.analysed["comprehension_aware_visitors"] = sorted(aware_set)
     gaps: Dict[str, Set[str]] = {}
     checked: Set[str] = set()
+    pgaps: Dict[str, Set[str]] = {}
+    pchecked: Set[str] = set()
+    pattern_binders = {vv for (vv, c) in full.pairs if c == "MatchAs" and "MatchAs.name" in full.bound_idents(vv, "MatchAs")}
     n_pairs = 0
     for kind, S in SCOPE_VISITORS.items():
         if kind == "Comprehension":
@@ -228,7 +232,7 @@ def _check_main(ctx, res) -> None:
                     positions = [(f"{f.type}.{g.name}", [f"{f.name}.{g.name}", f.name])
                                  for g in G.ctors[f.type].fields if g.type == "expr"]
                 else:
-                    continue
+                    positions = []
                 for key, paths in positions:
                     if key in R154_EXEMPT:
                         continue
@@ -236,6 +240,18 @@ def _check_main(ctx, res) -> None:
                     got = set().union(*[cov.get(p, set()) for p in paths])
                     if not (got & aware_set) and "?" not in got:
                         gaps.setdefault(key, set()).add(f"{kind}:{vv.split('.')[-1]}")
+                # R15.13: sub-patterns (capture patterns may sit at any depth)
+                if f.type == "pattern":
+                    ppos = [(f"{c}.{f.name}", [f.name])]
+                elif f.type in G.products and f.type not in ("arguments", "arg"):
+                    ppos = [(f"{f.type}.{g.name}", [f"{f.name}.{g.name}", f.name]) for g in G.ctors[f.type].fields if g.type == "pattern"]
+                else:
+                    ppos = []
+                for key, paths in ppos:
+                    pchecked.add(key)
+                    got = set().union(*[cov.get(p, set()) for p in paths])
+                    if not (got & pattern_binders) and "?" not in got:
+                        pgaps.setdefault(key, set()).add(f"{kind}:{vv.split('.')[-1]}")
     res.analysed["R15.4_positions_checked"] = len(checked)
     res.analysed["R15.4_pairs_checked"] = n_pairs
     res.floor("R15.4", "expression positions", len(checked), 40)
@@ -249,6 +265,53 @@ def _check_main(ctx, res) -> None:
                 f"a comprehension or generator expression written there is not a scope of its own"
                 + (f" (handler {h.qualname} cuts the traversal)" if h else ""),
                 where_lost=kinds)
+    # ---------------- R15.14 a child is traversed whenever it is PRESENT: a visit of <x>.F may be conditional only on F
+    # itself, never on a sibling field (the handler summaries above are flow-insensitive and cannot see this)
+    n14 = 0
+    for vq in sorted(q for q in idx.classes if q.startswith(MOD + ".") and q.endswith("Visitor")):
+        cinfo = idx.classes[vq]
+        for mname, m in sorted(cinfo.methods.items()):
+            if not (mname.startswith("_") and mname[1:] in G.ctors):
+                continue
+            parents = {}
+            for pnode in ast.walk(m.node):
+                for ch in ast.iter_child_nodes(pnode):
+                    parents[ch] = pnode
+            for c in calls_in(m.node):
+                if not (isinstance(c.func, ast.Attribute) and c.func.attr == "visit" and c.args and isinstance(c.args[0], ast.Attribute)
+                        and isinstance(c.args[0].value, ast.Name)):
+                    continue
+                root, fld = c.args[0].value.id, c.args[0].attr
+                n14 += 1
+                x = c
+                culprit = None
+                while x in parents and culprit is None:
+                    pnode = parents[x]
+                    if isinstance(pnode, ast.If) and any(x is st for st in pnode.body):
+                        mentioned = {a.attr for a in ast.walk(pnode.test) if isinstance(a, ast.Attribute) and isinstance(a.value, ast.Name) and a.value.id == root}
+                        if mentioned and fld not in mentioned:
+                            culprit = pnode
+                    x = pnode
+                res.add("R15.14", f"{vq.split('.')[-1]}.{mname}|{root}.{fld}", culprit is None, f"{m.unit.rel}:{c.lineno}",
+                        f"{root}.{fld} is traversed whenever it is present" if culprit is None else
+                        f"{root}.{fld} is traversed only when `{ast.unparse(culprit.test)}` holds -- a test on a sibling field: when it is false, names bound and scopes "
+                        f"opened inside {root}.{fld} (a walrus target, a comprehension, a lambda) are missing from rope's tables although the interpreter has them",
+                        function=m.qualname)
+    res.floor("R15.14", "field visits in scope-visitor handlers", n14, 12)
+
+    # ---------------- R15.13 every sub-pattern position is traversed by a visitor that records capture names
+    if "MatchAs" in G.ctors:
+        res.floor("R15.13", "sub-pattern positions", len(pchecked), 6)
+        for key in sorted(pchecked):
+            kinds = sorted(pgaps.get(key, ()))
+            c, fld = key.split(".")
+            h = v.handler(SCOPE_VISITORS["Function"], c)
+            res.add("R15.13", key, not kinds, h.where if h else idx.classes[SCOPE_VISITORS["Global"]].where,
+                    f"{key} is passed on to a visitor that records capture patterns wherever a {c} node arrives" if not kinds else
+                    f"{key} is not traversed when a {c} node arrives at {', '.join(kinds)}: names captured inside that sub-pattern "
+                    f"(`case (x, y) as whole`, `case [a, *rest] as seq`) are bound by the interpreter but missing from rope's name table"
+                    + (f" (handler {h.qualname} cuts the traversal)" if h else ""), where_lost=kinds)
+
     # Lambda opens a scope?
     lam = any(v.handler(S, "Lambda") is not None and any(e.target in openers for e in v.summary(S, v.handler(S, "Lambda")).escapes())
               for S in SCOPE_VISITORS.values())
